@@ -13,7 +13,7 @@ PROPERTY = 'C12'
 RULE = (
     'the real Reactor/Peer on a virtual clock; negotiated hold time H from (our hold-time, peer OPEN hold time) over {0,3,4,9,30,90,65535}; '
     'remote behaviour after establishment = drawn sequence of (gap, KEEPALIVE | UPDATE | nothing) with gaps around H and H/3, bursts and long silences; '
-    'OPEN withheld for openwait +- 2 s; long-batch: 40-150 routes with distinct attributes sent under `rate-limit` (one UPDATE per loop iteration, several H/3 long) while the remote keeps sending; write-stall: one outbound UPDATE write blocks for 1-3 H of virtual time while the remote keeps sending every H/3..H-1.5 s (the session must survive, then expire H after the remote falls silent). Oracle over virtual timestamps on the transport. Non-trivial = some gap within +-3 s of H or H/3, or H = 0, or the OPEN is withheld'
+    'OPEN withheld for openwait +- 2 s; inbound-stream: the remote sends UPDATEs / KEEPALIVEs every 10-90 ms (no idle poll interval) for H/3+3 .. 2H seconds; long-batch: 40-150 routes with distinct attributes sent under `rate-limit` (one UPDATE per loop iteration, several H/3 long) while the remote keeps sending; write-stall: one outbound UPDATE write blocks for 1-3 H of virtual time while the remote keeps sending every H/3..H-1.5 s (the session must survive, then expire H after the remote falls silent). Oracle over virtual timestamps on the transport. Non-trivial = some gap within +-3 s of H or H/3, or H = 0, or the OPEN is withheld'
 )
 ASSUMPTIONS = [
     'time only advances through the virtual clock: starvation of the timers by CPU-bound work cannot be observed here; a blocked outbound write is simulated by a virtual-time wait inside Connection.writer_async',
@@ -31,8 +31,8 @@ def cases(draw):
     ours = draw(st.sampled_from(HOLDS_OURS))
     peer = draw(st.sampled_from(HOLDS_PEER))
     h = min(ours, peer)
-    mode = draw(st.sampled_from(['long-batch', 'write-stall', 'open-withheld', 'established', 'established', 'established']))
-    if mode in ('write-stall', 'long-batch') and h == 0:
+    mode = draw(st.sampled_from(['long-batch', 'write-stall', 'inbound-stream', 'open-withheld', 'established', 'established', 'established']))
+    if mode in ('write-stall', 'long-batch', 'inbound-stream') and h == 0:
         mode = 'established'
     openwait = draw(st.sampled_from([3, 5, 10]))
     steps = []
@@ -53,6 +53,10 @@ def cases(draw):
     elif mode == 'long-batch':
         # an outbound batch that takes several H/3 to send (rate-limit: one UPDATE per loop iteration): KEEPALIVEs are due in between
         return {'ours': ours, 'peer': peer, 'mode': mode, 'openwait': openwait, 'delay_open': 1.0, 'steps': [], 'tail': 'silence', 'routes': draw(st.sampled_from([40, 80, 150])), 'period': round(max(0.5, h / 3.0), 2)}
+    elif mode == 'inbound-stream':
+        # the remote sends back to back (a router dumping its table): the peer loop never sees an idle 100 ms, for longer than H/3
+        span = min(45.0, draw(st.sampled_from([h / 3.0 + 3.0, float(h), 2.0 * h])))
+        return {'ours': ours, 'peer': peer, 'mode': mode, 'openwait': openwait, 'delay_open': 1.0, 'steps': [], 'tail': 'silence', 'span': round(span, 2), 'every': draw(st.sampled_from([0.01, 0.05, 0.09])), 'what': draw(st.sampled_from(['update', 'update', 'keepalive', 'mixed']))}
     elif mode == 'write-stall':
         # one outbound UPDATE write blocks for longer than H (the remote's window is closed) while the remote keeps sending
         tail = 'silence'
@@ -127,6 +131,18 @@ def check(case: dict) -> dict:
                     updates = [t for t, ty, _ in r.messages if ty == 2]
                     if len(updates) > case['routes'] and loop.time() - updates[-1] > 2 * case['period']:
                         break
+            if case['mode'] == 'inbound-stream':
+                n = 0
+                while loop.time() < t_est + case['span'] and r.closed_at is None:
+                    await hn.sleep(case['every'])
+                    if r.closed_at is not None:
+                        break
+                    n += 1
+                    if case['what'] == 'keepalive' or (case['what'] == 'mixed' and n % 3 == 0):
+                        await r.send_msg(codec.KEEPALIVE)
+                    else:
+                        await r.send_msg(codec.UPDATE, b'\x00\x00\x00\x00' if n % 2 else b'\x00\x00\x00\x0e\x40\x01\x01\x00\x40\x02\x00\x40\x03\x04\x0a\x00\x00\x02\x18' + bytes([70, n % 250, (n // 250) % 250]))
+                    arrivals.append(loop.time())
             if case['mode'] == 'write-stall':
                 # the remote is never silent for H while the write is blocked, and for a while after it went through
                 until = t_est + float(case['stall']) + 2 * h
@@ -249,6 +265,9 @@ def check(case: dict) -> dict:
         span = (ups[-1] - ups[0]) if len(ups) > 1 else 0.0
         classes.append('outbound-batch-longer-than-H/3' if span > h / 3.0 else 'outbound-batch-short')
         nontrivial = span > h / 3.0
+    if case['mode'] == 'inbound-stream':
+        classes.append('inbound-stream-longer-than-H/3')
+        nontrivial = True
     if case['mode'] == 'write-stall':
         if not stalls:
             return {'nontrivial': False, 'classes': classes + ['write-stall:no-update-written']}
@@ -259,4 +278,16 @@ def check(case: dict) -> dict:
     return {'nontrivial': nontrivial, 'classes': classes}
 
 
-ENGINES = [Engine('timers', cases, check, quick=120, thorough=2500, batch=60)]
+def fixed_cases() -> list:
+    """the special modes at fixed parameters, run in every tier (the random draw visits each only a few times in the quick tier)"""
+    out = []
+    for h, peer in ((3, 90), (9, 9), (30, 4)):
+        hh = min(h, peer)
+        for every, what in ((0.01, 'update'), (0.09, 'keepalive'), (0.05, 'mixed')):
+            out.append({'ours': h, 'peer': peer, 'mode': 'inbound-stream', 'openwait': 5, 'delay_open': 1.0, 'steps': [], 'tail': 'silence', 'span': round(hh / 3.0 + 3.0, 2), 'every': every, 'what': what})
+        out.append({'ours': h, 'peer': peer, 'mode': 'long-batch', 'openwait': 5, 'delay_open': 1.0, 'steps': [], 'tail': 'silence', 'routes': 80, 'period': round(max(0.5, hh / 3.0), 2)})
+        out.append({'ours': h, 'peer': peer, 'mode': 'write-stall', 'openwait': 5, 'delay_open': 1.0, 'steps': [], 'tail': 'silence', 'stall': hh * 2.0, 'period': round(hh / 2.0, 2)})
+    return out
+
+
+ENGINES = [Engine('timers', cases, check, quick=120, thorough=2500, batch=60, fixed_cases=fixed_cases)]
